@@ -411,6 +411,10 @@ def _analyse_variants(facts, fn_def, max_split=5, **kw):
                 c = c["e"]
             if c.get("k") == "Path" and c.get("res") == "local" and c.get("ty") == "bool":
                 flag_ifs.setdefault(c["id"], []).append(i_)
+        # `match flag { true => .., false => .. }` is a test of the flag as well
+        for m_ in tast.find(hk.main_loop, lambda z: z.get("k") == "Match" and z["scrut"].get("k") == "Path" and z["scrut"].get("res") == "local" and z["scrut"].get("ty") == "bool"):
+            if m_["scrut"]["id"] in flag_ifs:
+                flag_ifs[m_["scrut"]["id"]].append(m_)
         let_ids = {l["pat"]["id"] for l in tast.find(hk.main_loop, lambda z: z.get("k") == "Let" and z["pat"].get("k") == "PBind" and z["pat"].get("ty") == "bool" and z.get("init") is not None)}
         assigned = {a["l"]["id"] for a in tast.find(hk.main_loop, lambda z: z.get("k") == "Assign" and z["l"].get("k") == "Path")}
         for fid, ifs_ in flag_ifs.items():
